@@ -972,6 +972,45 @@ def sweep_regions(rec):
           record(rec, data, cfg)
 
 
+C_SPLIT = "a text field split over extension blocks reads like the same bytes in one block"
+
+
+def detailed(doc):
+  """every paragraph with its region geometry, text, per-span styles (font size included) -- for comparing two readings of the same content"""
+  import ttconv.model as M
+  out = []
+  if doc is None or doc.get_body() is None:
+    return out
+  for p in doc.get_body().dfs_iterator():
+    if isinstance(p, M.P):
+      reg = p.get_region()
+      rs = tuple(sorted((k.__name__, repr(reg.get_style(k))) for k in reg.iter_styles())) if reg is not None else None
+      items = []
+      for e in p.dfs_iterator():
+        if isinstance(e, M.Text):
+          items.append(("T", e.get_text()))
+        elif isinstance(e, M.Br):
+          items.append(("BR",))
+        elif e is not p:
+          items.append((type(e).__name__, tuple(sorted((k.__name__, repr(e.get_style(k))) for k in e.iter_styles()))))
+      out.append((p.get_begin(), p.get_end(), tuple(sorted((k.__name__, repr(p.get_style(k))) for k in p.iter_styles())), rs, tuple(items)))
+  return out
+
+
+def split_difference(split_data, single_data):
+  import io
+  import ttconv.stl.reader as stl_reader
+  try:
+    a = detailed(stl_reader.to_model(io.BytesIO(split_data)))
+    b = detailed(stl_reader.to_model(io.BytesIO(single_data)))
+  except Exception:  # pylint: disable=broad-except
+    return None          # reported by the other contracts
+  if a == b:
+    return None
+  k = next((i for i in range(min(len(a), len(b))) if a[i] != b[i]), min(len(a), len(b)))
+  return f"paragraph {k}: split over blocks {a[k] if k < len(a) else None!r}; in one block {b[k] if k < len(b) else None!r}"
+
+
 def sweep_full_text_fields(rec):
   """text fields WITHOUT any unused-space byte (all 112 bytes used): a single full block, a full block followed by an extension
   block (in both EBN numberings), a last block that is exactly full, for teletext and open subtitles, two code pages"""
@@ -985,11 +1024,26 @@ def sweep_full_text_fields(rec):
         "short+full": [(0x00, words[:40]), (0xFF, words[40:40 + S.TF_SIZE])],
         "three-blocks-F0": [(0xEE, words[:S.TF_SIZE]), (0xEF, words[S.TF_SIZE:2 * S.TF_SIZE]), (0xFF, words[2 * S.TF_SIZE:2 * S.TF_SIZE + 5])],
         "full-ending-in-newline": [(0xFF, words[:S.TF_SIZE - 1] + bytes([S.NEWLINE]))],
+        # the double-height code (0Dh) in the FIRST block of a subtitle that continues in an extension block, and in the last block only
+        "double-height-in-first-block": [(0x00, b"\x0d" + words[:50]), (0xFF, words[50:80])],
+        "double-height-in-last-block": [(0x00, words[:50] + bytes([S.NEWLINE])), (0xFF, b"\x0d" + words[50:80])],
+        "double-height-in-middle-block": [(0xEE, words[:30] + bytes([S.NEWLINE])), (0xEF, b"\x0d" + words[30:60] + bytes([S.NEWLINE])), (0xFF, words[60:80])],
       }
       for _name, tfs in sorted(cases.items()):
         blocks = [tti_block(sn=0, ebn=ebn, tci=(0, 0, 1, 0), tco=(0, 0, 3, 0), vp=18, jc=2, tf=tf) for ebn, tf in tfs]
         blocks.append(tti_block(sn=1, tci=(0, 0, 4, 0), tco=(0, 0, 5, 0), vp=20, jc=2, tf=b"next"))
-        record(rec, stl_file(blocks, dsc=dsc, cct=cct), None)
+        data = stl_file(blocks, dsc=dsc, cct=cct)
+        record(rec, data, None)
+        whole = b"".join(tf for _ebn, tf in tfs)
+        if len(tfs) > 1 and len(whole) <= S.TF_SIZE:
+          # metamorphic contract `extension blocks are concatenated`: the same bytes in ONE block give the same paragraphs (text, styles,
+          # font size, alignment, region) -- whatever reading of the text field the reader follows, it must follow it for both layouts
+          one = stl_file([tti_block(sn=0, ebn=0xFF, tci=(0, 0, 1, 0), tco=(0, 0, 3, 0), vp=18, jc=2, tf=whole), blocks[-1]], dsc=dsc, cct=cct)
+          rec.evaluated(C_SPLIT, (zlib.crc32(data), "split"))
+          diff = split_difference(data, one)
+          if diff is not None:
+            rec.fail("split-changes-result", C_SPLIT, diff, {"file": describe(data)}, None, None, "replayers.c09:split",
+                     {"split_hex": data.hex(), "single_hex": one.hex()})
 
 
 def sweep_line_count(rec, r, n):
